@@ -409,9 +409,6 @@ theorem streamFinish_eq (w : World) (outf : Option Str) (res : Res) (s : Src) (k
         if res = .ok then ({ exit := 0, world := w', stdout := out } : Outcome)
         else { exit := 1, world := w', stdout := out, err := some (.crypto res) }) = streamFinish w outf (res, s, k) := by
   simp only [streamFinish]
-  generalize deliver w outf k = d
-  obtain ⟨w', out⟩ := d
-  rfl
 
 /-- `runPassDecrypt` once the input and the password are there -/
 theorem runPassDecrypt_path {P : Prims} {w : World} {inf outf : Option Str} {e : Bool} {input pw : Bytes}
